@@ -205,6 +205,8 @@ MUT_TRACKED = {"alloc::vec::Vec<u8>", "alloc::string::String", "core::option::Op
                "core::option::Option<ciborium::value::Value>"}
 
 
+_CORE_VARIANTS = {"core::option::Option": {0: "None", 1: "Some"}, "core::result::Result": {0: "Ok", 1: "Err"},
+                  "core::ops::control_flow::ControlFlow": {0: "Continue", 1: "Break"}}
 FN_TRAIT_CALLS = ("core::ops::function::FnOnce::call_once", "core::ops::function::FnMut::call_mut", "core::ops::function::Fn::call")
 
 class Prov:
@@ -310,8 +312,43 @@ class Prov:
         return self._in[bb].get(l, frozenset([-1]))
 
     # ---- terms ---------------------------------------------------------------
+    def _block_statically_dead(self, b):
+        """a block reached only under a test of a LITERAL that the literal fails (`match detached { Some(p) => .., None => .. }`
+        after `None` reached an inlined helper's parameter): a definition made there is not a value the local can have"""
+        memo = self.__dict__.setdefault("_dead_memo", {})
+        if b in memo:
+            return memo[b]
+        if self.__dict__.get("_dead_busy"):
+            return False
+        self.__dict__["_dead_busy"] = True
+        dead = False
+        try:
+            from .guards import conditions
+            for subj, op, val in conditions(self.fn, self, b):
+                if not (isinstance(subj, tuple) and subj and subj[0] == "const_variant"):
+                    continue
+                names = self.prog.enums.get(subj[1]) or _CORE_VARIANTS.get(subj[1]) or {}
+                d = [k for k, n in names.items() if n == subj[2]]
+                if len(d) != 1:
+                    continue
+                d = d[0]
+                holds = (d == val) if op == "eq" else (d in val) if op == "in" else (d not in val) if op == "ne" else None
+                if holds is False:
+                    dead = True
+                    break
+        except Exception:
+            dead = False
+        finally:
+            self.__dict__["_dead_busy"] = False
+        memo[b] = dead
+        return dead
+
     def local_term(self, l, bb, idx):
         ds = self.reaching(l, bb, idx)
+        if len(ds) > 1:
+            live = {di for di in ds if di == -1 or not self._block_statically_dead(self._defs[di][1])}
+            if live and len(live) < len(ds):
+                ds = live
         out = []
         for di in sorted(ds):
             if di == -1:
